@@ -37,13 +37,17 @@ Options == [timefmt |-> {"unixtime", "date", "datehour"}, leadname |-> {N_leadti
             hasObs |-> BOOLEAN, hasFcst |-> BOOLEAN, hasPit |-> BOOLEAN, colset |-> 1..9, colorder |-> {"id", "rev", "rot"},
             roworder |-> {"id", "rev", "rot"}, absent |-> {{}, {1}, {2, 7}, {1, 2, 3, 4}, {2, 3, 5, 8}},
             misscells |-> {{}, {<<1, "obs">>}, {<<2, "fcst">>, <<5, "obs">>}, {<<1, "x">>, <<4, "x">>}, {<<3, "lat">>}},
-            misstok |-> {"-999", "nan", "abc", "NA", "-999.0"}, meta |-> 0..3]
+            misstok |-> {"-999", "nan", "abc", "NA", "-999.0", "-1000", "-998.5"}, meta |-> 0..3]
 Fields == DOMAIN Options
 Vary1(b) == UNION {{[b EXCEPT ![f] = v] : v \in Options[f]} : f \in Fields}
 Vary2(b) == UNION {Vary1(x) : x \in Vary1(b)}
 \* ---- building the literal file ----
 NumTok(v) == [m |-> FALSE, v |-> v, txt |-> ""]
-Miss(txt) == IF txt = "-999.0" THEN [m |-> FALSE, v |-> R(-999), txt |-> "-999.0"] ELSE [m |-> TRUE, v |-> NaN, txt |-> txt]
+\* the tokens put into the chosen cells: spellings of "missing", and two NUMBERS just below the missing-value code that are data
+Miss(txt) == IF txt = "-999.0" THEN [m |-> FALSE, v |-> R(-999), txt |-> "-999.0"]
+             ELSE IF txt = "-1000" THEN [m |-> FALSE, v |-> R(-1000), txt |-> txt]
+             ELSE IF txt = "-998.5" THEN [m |-> FALSE, v |-> Frac(-1997, 2), txt |-> txt]
+             ELSE [m |-> TRUE, v |-> NaN, txt |-> txt]
 CanonCols(x) ==
   (IF x.timefmt = "unixtime" THEN <<N_unixtime>> ELSE IF x.timefmt = "date" THEN <<N_date>> ELSE <<N_date, N_hour>>)
   \o (IF x.hasLead THEN <<x.leadname>> ELSE <<>>) \o <<x.idname>>
@@ -121,7 +125,8 @@ InvIntended ==
   /\ I.hasObs = g.hasObs /\ I.hasFcst = g.hasFcst /\ I.hasPit = g.hasPit
   /\ Cardinality(I.thresholds) + Cardinality(I.quantiles) + Cardinality(I.members) + Cardinality(I.others) = Len(ColSets[g.colset])
   /\ (g.colset = 6 => I.others = {N_pop, N_px, N_e1x} /\ I.thresholds = {R(-1)})
-  /\ (g.hasObs => \A c \in DOMAIN I.obs : IsNaN(I.obs[c]) \/ ((I.obs[c][1] \div I.obs[c][2]) % 1000) = Code(c[1], c[2], c[3]))
+  /\ (g.hasObs => \A c \in DOMAIN I.obs : IsNaN(I.obs[c]) \/ I.obs[c] \in {R(-1000), Frac(-1997, 2)}
+                                              \/ ((I.obs[c][1] \div I.obs[c][2]) % 1000) = Code(c[1], c[2], c[3]))
 \* ---- witnesses against vacuity (tools/vacuity.py) ----
 W_NoLeadingDigit == ~(g.colset = 8)
 W_MixedOrderThresholds == ~(g.colset = 9 /\ g.colorder # "id")
